@@ -60,16 +60,22 @@ func c05EveryEntryInserted(c *core.Ctx) {
 			if isSink[call] {
 				st.Set("ev:inserted", flow.True)
 			}
+			if calleeFull(f, call) == "net.ParseCIDR" {
+				st.Set("ev:cidrTried", flow.True)
+			}
 		},
 		OnBlock: func(st *flow.State, b *cfg.Block) {
 			switch {
 			case loop.isBody(b):
 				st.Set("ev:inbody", flow.True)
 				st.Set("ev:inserted", flow.Unknown)
+				st.Set("ev:cidrTried", flow.Unknown)
 			case loop.isHead(b):
 				if st.Is("ev:inbody", flow.True) {
 					iters++
-					parsed := st.Is(ipNil, flow.False) || (st.Is(ipNil, flow.True) && st.Is(errNil, flow.True))
+					// a single address that is sent through ParseCIDR as well counts as parsed only
+					// when that succeeded
+					parsed := (st.Is(ipNil, flow.False) && !st.Is("ev:cidrTried", flow.True)) || (st.Is("ev:cidrTried", flow.True) && st.Is(errNil, flow.True))
 					if parsed && !st.Is("ev:inserted", flow.True) {
 						bad = st
 					}
